@@ -26,7 +26,7 @@ inductive ErrKind
   | noPrefix                 -- noPrefixParseFnError
   | badFloat                 -- parseFloatLiteral
   | lambdaParams             -- parseLambdaMulti
-  | funcParams               -- parseFunctionParameters
+  | funcParams               -- parseFunctionParameters (paramError: not an identifier list; an invalid character has its own wording)
   deriving DecidableEq, Repr
 
 inductive Res (α : Type)
@@ -119,7 +119,8 @@ def parseComment : PM ONode := do
   let sameLineAsNext := !st.nextNewline
   let r := Node.comment st.cur.tk (!st.prevNewline) sameLineAsNext
   if st.cur.type = .BLOCKCOMMENT then
-    if !bytesEndWith st.cur.lit [42, 47] then
+    -- a closed block comment is at least `/**/` (the unterminated `/*/` also ends in `*/`)
+    if st.cur.lit.length < 4 || !bytesEndWith st.cur.lit [42, 47] then
       setCont
       pure none
     else pure (some r)
@@ -177,7 +178,12 @@ def okParamList : NList → Option (Option Tk × Bool)
     else if t.type != .IDENT then some (some t, false)
     else okParamList rest
 
-/-- `for p.peekTokenIs(token.COMMA) { nextToken; nextToken; append ident }` -/
+/-- `p.parameter()`: the current token as an identifier node (the list is checked as a whole by `okParamList`) -/
+def parameter (_s : TokStream) : PM ONode := do
+  let st ← getSt
+  pure (some (.ident st.cur.tk))
+
+/-- `for p.peekTokenIs(token.COMMA) { nextToken; nextToken; append parameter }` -/
 def parseFunctionParametersLoop (s : TokStream) : Nat → NList → PM NList
   | 0, _ => outOfFuel
   | fuel + 1, acc => do
@@ -185,8 +191,8 @@ def parseFunctionParametersLoop (s : TokStream) : Nat → NList → PM NList
     if st.peek.type = .COMMA then
       nextToken s
       nextToken s
-      let st ← getSt
-      parseFunctionParametersLoop s fuel (acc ++ [some (.ident st.cur.tk)])
+      let id ← parameter s
+      parseFunctionParametersLoop s fuel (acc ++ [id])
     else pure acc
 
 def parseFunctionParameters (s : TokStream) (fuel : Nat) : PM (NList × Bool) := do
@@ -196,8 +202,8 @@ def parseFunctionParameters (s : TokStream) (fuel : Nat) : PM (NList × Bool) :=
     pure ([], false)
   else
     nextToken s
-    let st ← getSt
-    let ids ← parseFunctionParametersLoop s fuel [some (.ident st.cur.tk)]
+    let id ← parameter s
+    let ids ← parseFunctionParametersLoop s fuel [id]
     if !(← expectPeek s .RPAREN) then pure ([], false)
     else
       -- the rule of lambda parameters: identifiers, the last one can be `..` (paramError otherwise)
@@ -238,7 +244,10 @@ def parseExpression (s : TokStream) : Nat → Nat → PM ONode
     else
       match lookup prefixRegs st.cur.type with
       | none =>
-        if st.peek.type != .LAMBDA then noPrefixParseFnError s
+        if st.peek.type != .LAMBDA then   -- `… =>`: to make `() => { … }` without errors
+          -- `()` at the end of the line: the `=>` of the lambda may be on the next one
+          if st.peek.type = .EOL && st.cur.type = .RPAREN && (st.prev.map (·.type)) == some .LPAREN then setCont
+          else noPrefixParseFnError s
         pure none
       | some prefixFn =>
         let leftExp ← prefixDispatch s fuel prefixFn
